@@ -404,6 +404,9 @@ func genPlainNumber(r *core.Rand) string {
 		b.WriteByte(r.Char("0123456789"))
 	}
 	nf := r.Intn(9)
+	if r.Chance(1, 6) {
+		nf = 9 + r.Intn(10) // more significant digits than a double holds: Precision 0 still means "as written"
+	}
 	if ni == 0 && nf == 0 {
 		nf = 1
 	}
